@@ -134,6 +134,8 @@ static long vpe_strtol(const char *nptr, char **endptr, int base)
 /* ----------------------------------------------------------------- events */
 int vpe_event_add_fail;      /* harness: next event_add calls fail */
 int vpe_event_adds, vpe_event_dels, vpe_event_assigns;
+int vpe_pending_events;      /* events added and not deleted since: an event whose memory is released while it is
+                              * pending stays counted (nothing removes it), so "no pending event left" is checkable */
 int event_assign(struct event *ev, struct event_base *base, evutil_socket_t fd, short events,
     event_callback_fn cb, void *arg)
 {
@@ -150,6 +152,7 @@ int event_add(struct event *ev, const struct timeval *tv)
 	VP_ASSERT(ev->ev_evcallback.evcb_flags & EVLIST_INIT, "event_add() on an event that is not assigned (or was freed)");
 	vpe_event_adds++;
 	if (vpe_event_add_fail) return -1;
+	if (!(ev->ev_evcallback.evcb_flags & (EVLIST_INSERTED | EVLIST_TIMEOUT))) vpe_pending_events++;
 	if (ev->ev_events & (EV_READ | EV_WRITE | EV_SIGNAL | EV_CLOSED)) ev->ev_evcallback.evcb_flags |= EVLIST_INSERTED;
 	if (tv) { ev->ev_evcallback.evcb_flags |= EVLIST_TIMEOUT; ev->ev_timeout = *tv; }
 	else if (!(ev->ev_events & (EV_READ | EV_WRITE | EV_SIGNAL | EV_CLOSED))) ev->ev_evcallback.evcb_flags |= EVLIST_TIMEOUT;
@@ -159,6 +162,7 @@ int event_del(struct event *ev)
 {
 	VP_ASSERT(ev->ev_evcallback.evcb_flags & EVLIST_INIT, "event_del() on an event that is not assigned (or was freed)");
 	vpe_event_dels++;
+	if (ev->ev_evcallback.evcb_flags & (EVLIST_INSERTED | EVLIST_TIMEOUT)) vpe_pending_events--;
 	ev->ev_evcallback.evcb_flags &= ~(EVLIST_INSERTED | EVLIST_TIMEOUT | EVLIST_ACTIVE);
 	return 0;
 }
@@ -219,11 +223,51 @@ static int vpe_gethostname(char *name, size_t len) { (void)name; (void)len; retu
 #define sendto(a, b, c, d, e, f) vpe_sendto((a), (b), (c), (d), (e), (f))
 #define recvfrom(a, b, c, d, e, f) vpe_recvfrom((a), (b), (c), (d), (e), (f))
 #define gethostname(a, b) vpe_gethostname((a), (b))
+/* ----------------------------------------------------------- bufferevent */
+/* TCP transport of the resolver: a bufferevent is an opaque token from a small pool; writes/enables succeed unless
+ * the harness set vpe_bev_fail; the callbacks installed are recorded so that a harness can deliver events. */
+#include "event2/bufferevent.h"
+#include "event2/buffer.h"
+#ifndef VPE_NBEV
+#define VPE_NBEV 3
+#endif
+struct vpe_bev { int used, freed, enabled, writes, connects; bufferevent_data_cb readcb; bufferevent_event_cb eventcb; void *ctx; };
+struct vpe_bev vpe_bevs[VPE_NBEV];
+int vpe_bev_next, vpe_bev_fail, vpe_bev_new_fail, vpe_bev_frees;
+struct bufferevent *bufferevent_socket_new(struct event_base *base, evutil_socket_t fd, int options)
+{
+	(void)base; (void)fd; (void)options;
+	if (vpe_bev_new_fail) return NULL;
+	VP_ASSERT(vpe_bev_next < VPE_NBEV, "harness: bufferevent pool exhausted");
+	vpe_bevs[vpe_bev_next].used = 1;
+	return (struct bufferevent *)&vpe_bevs[vpe_bev_next++];
+}
+static struct vpe_bev *vpe_bev_of(struct bufferevent *b)
+{
+	struct vpe_bev *v = (struct vpe_bev *)b;
+	VP_ASSERT(v->used && !v->freed, "bufferevent used after bufferevent_free()");
+	return v;
+}
+void bufferevent_free(struct bufferevent *b) { struct vpe_bev *v = vpe_bev_of(b); v->freed = 1; vpe_bev_frees++; }
+int bufferevent_set_timeouts(struct bufferevent *b, const struct timeval *r, const struct timeval *w) { (void)r; (void)w; (void)vpe_bev_of(b); return 0; }
+int bufferevent_socket_connect(struct bufferevent *b, const struct sockaddr *a, int l) { (void)a; (void)l; vpe_bev_of(b)->connects++; return vpe_bev_fail ? -1 : 0; }
+void bufferevent_setcb(struct bufferevent *b, bufferevent_data_cb r, bufferevent_data_cb w, bufferevent_event_cb e, void *ctx)
+{ struct vpe_bev *v = vpe_bev_of(b); (void)w; v->readcb = r; v->eventcb = e; v->ctx = ctx; }
+int bufferevent_write(struct bufferevent *b, const void *d, size_t n) { (void)d; (void)n; vpe_bev_of(b)->writes++; return vpe_bev_fail ? -1 : 0; }
+int bufferevent_enable(struct bufferevent *b, short ev) { (void)ev; vpe_bev_of(b)->enabled = 1; return vpe_bev_fail ? -1 : 0; }
+void bufferevent_setwatermark(struct bufferevent *b, short ev, size_t lo, size_t hi) { (void)ev; (void)lo; (void)hi; (void)vpe_bev_of(b); }
+evutil_socket_t bufferevent_getfd(struct bufferevent *b) { (void)vpe_bev_of(b); return 9; }
+struct evbuffer *bufferevent_get_input(struct bufferevent *b) { (void)vpe_bev_of(b); return NULL; }
+size_t bufferevent_read(struct bufferevent *b, void *d, size_t n) { (void)d; (void)n; (void)vpe_bev_of(b); return 0; }
+size_t evbuffer_get_length(const struct evbuffer *buf) { (void)buf; return 0; }
+
 #include "util-internal.h"
 int vpe_gai_fn_set, vpe_gai_cancel_fn_set;
 void evutil_set_evdns_getaddrinfo_fn_(evdns_getaddrinfo_fn fn) { (void)fn; vpe_gai_fn_set++; }
 void evutil_set_evdns_getaddrinfo_cancel_fn_(evdns_getaddrinfo_cancel_fn fn) { (void)fn; vpe_gai_cancel_fn_set++; }
 int evutil_secure_rng_init(void) { return 0; }
+#ifndef VPE_CUSTOM_RNG
 void evutil_secure_rng_get_bytes(void *buf, size_t n) { vp_bytes(buf, n); }
+#endif
 
 #endif
